@@ -28,6 +28,8 @@ func DrawContent(t *rapid.T, label string, goodBias int) Content {
 	}
 	switch c.Kind {
 	case "good", "badsig", "unknown-signer", "truncated", "critical":
+		c.Form = rapid.SampledFrom([]string{"", "", "", "number", "nonumber", "v1"}).Draw(t, label+"_form")
+		c.SameThis = rapid.IntRange(0, 3).Draw(t, label+"_samethis") == 0
 		c.Set = DrawSet(t, label+"_set")
 		if c.Kind == "truncated" && len(c.Set) == 0 {
 			c.Set = []int{0, 1}
